@@ -519,7 +519,31 @@ def _rekey_loops(ctx, ld: Func, wfields: Set[str], set_by: Dict[str, Set[str]]) 
     return n_loops
 
 
+def rule_records_canonical(ctx) -> None:
+    """the body is a function of the state's content, not of the order in which record fields happened to be built: every
+    record the normaliser puts under nodes / edges is constructed by it (a literal with a fixed field order, or the
+    canonical-order copy helper) - never the caller's own dict, whose field order survives into the bytes (a state loaded from
+    a canonical-JSON snapshot has the fields sorted, so re-snapshotting it would not reproduce the body that was written)."""
+    w = ctx.func(SNAP + ":_sanitize_gel_for_write")
+    maps = {src(v) for r in walk_no_defs(w.node) if isinstance(r, ast.Return) and isinstance(r.value, ast.Dict) for k, v in zip(r.value.keys, r.value.values)
+            if k is not None and const_str(k) in ("nodes", "edges") and isinstance(v, ast.Name)}
+    n_st = 0
+    for x in walk_no_defs(w.node):
+        if isinstance(x, ast.Assign) and any(isinstance(t, ast.Subscript) and src(t.value) in maps for t in x.targets):
+            n_st += 1
+            v = x.value
+            built = not isinstance(v, (ast.Name, ast.Attribute, ast.Subscript))
+            canonical = isinstance(v, ast.Dict) or (isinstance(v, ast.Call) and call_tail(v) == "_canon_record") or \
+                any(isinstance(z, ast.Call) and dotted(z.func) == "sorted" for z in ast.walk(v))
+            ctx.check(built and canonical, "C06.TABLE", ctx.okey(f"{w.qual}/record-built-in-canonical-order"), w.loc(x),
+                      f"`{src(v)[:50]}` builds the record with a fixed / sorted field order",
+                      f"`{src(x)[:60]}` puts the caller's own record into the body: its field order (and later edits of it) reach the snapshot bytes, so the body of a state loaded from a "
+                      "canonical-JSON snapshot differs from the body that was written")
+    ctx.floor("C06.TABLE", "record stores of the GEL normaliser", n_st, 3)
+
+
 def run(ctx) -> None:
+    rule_records_canonical(ctx)
     rule_load_keeps_record(ctx)
     rule_table(ctx)
     rule_sym(ctx)
